@@ -1,3 +1,152 @@
-/-! Property C01 — theorems (statements live here, helper lemmas in Faithful/Lib) -/
+import Faithful.Lib.IndexAll
+import Faithful.Properties.C04
+
+/-!
+# C01 — every archived object, slot and signature resolves through the generated indexes
+
+The CAR is `Car.encode hdr secs` (any header bytes, any list of sections); `IndexAll.build` is the model of
+`createAllIndexes`; the lookups are the models of `Epoch.GetNodeByCid`, `FindCidFromSlot`,
+`FindCidFromSignature`, the block-time index and the sig-exists writer input.  Everything is stated for an
+arbitrary hash pair `hf` and an arbitrary node-info extractor `info` (CBOR decoding is C11's subject).
+"Index generation never reports success while leaving a lookup missing or wrong" is exactly the shape
+`build … = .ok ix → ∀ object, lookup = that object`.
+-/
 namespace C01
+open B CI Car IndexAll
+
+/-- every object of the CAR can be fetched by its CID and the bytes returned are exactly that object's bytes:
+    any number of sections, any section sizes (1-, 2-, 3-, 4-byte length varints), any header length. -/
+theorem C01_objects (hf : HF) (info : Bytes → Info) (hdr : Bytes) (secs : List Sec) (a b c : Nat) (ix : IndexSet)
+    (hwf : ∀ s ∈ secs, s.cid.length = 36)
+    (h : build hf info hdr.length secs a b c = .ok ix) (i : Nat) (hi : i < secs.length) :
+    getNodeByCid hf ix (Car.encode hdr secs) secs[i].cid = .ok secs[i].data := by
+  obtain ⟨hsmall, hc, _, _, _, _⟩ := build_ok hf info hdr.length secs a b c ix h
+  have hiL : i < (scan hdr.length secs).length := by rw [scan_length]; exact hi
+  have hloc := scan_getElem hdr.length secs i hi
+  have hmem : (scan hdr.length secs)[i] ∈ scan hdr.length secs := List.getElem_mem hiL
+  obtain ⟨ho, hs⟩ := hsmall _ hmem
+  rw [hloc] at ho hs
+  simp only at ho hs
+  have hkv : (⟨secs[i].cid, oasEncode (hdr.length + prefixLen (secs.map secBytes) i) (secBytes secs[i]).length⟩ : KV)
+      ∈ cidKVs hdr.length secs := by
+    unfold cidKVs
+    refine List.mem_map.mpr ⟨(scan hdr.length secs)[i], hmem, ?_⟩
+    rw [hloc]
+  have hl := C04.build_lookup hf 9 a [] _ ix.cidIx hc _ hkv
+  unfold getNodeByCid
+  simp only at hl
+  rw [hl]
+  simp only [oas_roundtrip _ _ ho hs]
+  -- the range read
+  have hslice := slice_at_loc hdr secs i hi
+  have hfit : hdr.length + prefixLen (secs.map secBytes) i + (secBytes secs[i]).length ≤ (Car.encode hdr secs).length := by
+    unfold Car.encode
+    have hi' : i < (secs.map secBytes).length := by simpa using hi
+    have := prefix_le_total (secs.map secBytes) i hi'
+    simp only [List.getElem_map] at this
+    simp only [List.length_append]
+    omega
+  have hsz : secs[i].cid.length + secs[i].data.length < 268435456 := by
+    rw [secBytes_length] at hs
+    have : (2:Nat)^24 = 16777216 := by decide
+    omega
+  unfold nodeAt
+  have hnot : ¬ (hdr.length + prefixLen (secs.map secBytes) i + (secBytes secs[i]).length > (Car.encode hdr secs).length) := by omega
+  simp only [hnot, if_false, hslice, parseSection_secBytes secs[i] (hwf _ (List.getElem_mem hi)) hsz, if_true]
+
+/-- every block's slot resolves to that block's CID and to its recorded block time -/
+theorem C01_slots (hf : HF) (info : Bytes → Info) (hdr : Bytes) (secs : List Sec) (a b c : Nat) (ix : IndexSet)
+    (h : build hf info hdr.length secs a b c = .ok ix) (s : Sec) (hs : s ∈ secs) (slot bt : Nat)
+    (hinfo : info s.data = .block slot bt) :
+    findCidFromSlot hf ix slot = .found s.cid ∧ (slot, bt) ∈ ix.blocktime := by
+  obtain ⟨_, _, hsl, _, hbt, _⟩ := build_ok hf info hdr.length secs a b c ix h
+  constructor
+  · have hkv : (⟨slotKey slot, s.cid⟩ : KV) ∈ slotKVs info secs := by
+      unfold slotKVs
+      exact List.mem_filterMap.mpr ⟨s, hs, by simp [hinfo]⟩
+    exact C04.build_lookup hf 36 b [] _ ix.slotIx hsl _ hkv
+  · rw [hbt]; unfold blocktimes
+    exact List.mem_filterMap.mpr ⟨s, hs, by simp [hinfo]⟩
+
+/-- with distinct slots the block-time lookup returns exactly the recorded time -/
+theorem C01_blocktime (hf : HF) (info : Bytes → Info) (hdr : Bytes) (secs : List Sec) (a b c : Nat) (ix : IndexSet)
+    (h : build hf info hdr.length secs a b c = .ok ix) (s : Sec) (hs : s ∈ secs) (slot bt : Nat)
+    (hinfo : info s.data = .block slot bt)
+    (hdistinct : ∀ p ∈ ix.blocktime, p.1 = slot → p.2 = bt) :
+    getBlocktime ix slot = some bt := by
+  have hm := (C01_slots hf info hdr secs a b c ix h s hs slot bt hinfo).2
+  unfold getBlocktime
+  cases hf' : ix.blocktime.find? (·.1 == slot) with
+  | none =>
+    have := List.find?_eq_none.mp hf' (slot, bt) hm
+    simp at this
+  | some p =>
+    have hp := List.find?_some hf'
+    have hpm := List.mem_of_find?_eq_some hf'
+    simp only [beq_iff_eq] at hp
+    simp [hdistinct p hpm hp]
+
+/-- every transaction's first signature resolves to that transaction's CID and is handed to the sig-exists writer
+    (C05's `seal_has` then gives "reported as existing") -/
+theorem C01_sigs (hf : HF) (info : Bytes → Info) (hdr : Bytes) (secs : List Sec) (a b c : Nat) (ix : IndexSet)
+    (h : build hf info hdr.length secs a b c = .ok ix) (s : Sec) (hs : s ∈ secs) (sig : Bytes)
+    (hinfo : info s.data = .tx sig) :
+    findCidFromSig hf ix sig = .found s.cid ∧ sig ∈ ix.sigs := by
+  obtain ⟨_, _, _, hsg, _, hsigs⟩ := build_ok hf info hdr.length secs a b c ix h
+  have hkv : (⟨sig, s.cid⟩ : KV) ∈ sigKVs info secs := by
+    unfold sigKVs
+    exact List.mem_filterMap.mpr ⟨s, hs, by simp [hinfo]⟩
+  constructor
+  · exact C04.build_lookup hf 36 c [] _ ix.sigIx hsg _ hkv
+  · rw [hsigs]; exact List.mem_map.mpr ⟨_, hkv, rfl⟩
+
+/-- a CID-addressed fetch never returns bytes stored under a different CID (C03, C10 "wrong CAR"):
+    whatever the index says and whatever file is read, data comes back only from a section labelled with the
+    requested CID at that location. -/
+theorem getNodeByCid_sound (hf : HF) (ix : IndexSet) (car c d : Bytes) (h : getNodeByCid hf ix car c = .ok d) :
+    ∃ off sz, off + sz ≤ car.length ∧ parseSection (slice car off sz) = some (c, d) := by
+  unfold getNodeByCid at h
+  split at h
+  · rename_i v _
+    simp only at h
+    split at h
+    · rename_i d' hn
+      cases h
+      unfold nodeAt at hn
+      split at hn
+      · cases hn
+      · rename_i hfit
+        split at hn
+        · cases hn
+        · rename_i c' d'' hp
+          split at hn
+          · rename_i hc
+            cases hn
+            exact ⟨(oasDecode v).1, (oasDecode v).2, by omega, by rw [hp, hc]⟩
+          · cases hn
+    · cases h
+  · cases h
+  · cases h
+
+/-- indexing refuses (instead of succeeding wrongly) when an offset or a section does not fit the 6+3-byte value -/
+theorem too_big_fails (hf : HF) (info : Bytes → Info) (hdrLen : Nat) (secs : List Sec) (a b c : Nat)
+    (l : Loc) (hl : l ∈ scan hdrLen secs) (hbig : l.offset ≥ 2^48 ∨ l.secLen ≥ 2^24) :
+    build hf info hdrLen secs a b c = .error .tooBig := by
+  unfold build
+  have : (scan hdrLen secs).any (fun l => decide (l.offset ≥ 2^48 ∨ l.secLen ≥ 2^24)) = true :=
+    List.any_eq_true.mpr ⟨l, hl, by simpa using hbig⟩
+  rw [if_pos this]
+
+/-! non-vacuity: the location arithmetic on a concrete two-section CAR -/
+def exSecs : List Sec := [⟨List.replicate 36 1, [2, 0, 5]⟩, ⟨List.replicate 36 7, List.replicate 200 9⟩]
+example : ∀ s ∈ exSecs, s.cid.length = 36 := by
+  intro s hs; simp only [exSecs, List.mem_cons, List.mem_nil_iff, or_false] at hs
+  rcases hs with rfl | rfl <;> simp only [List.length_replicate]
+example : (scan 59 exSecs).map (fun l => (l.offset, l.secLen)) = [(59, 40), (99, 238)] := by
+  have h1 : (secBytes ⟨List.replicate 36 1, [2, 0, 5]⟩).length = 40 := by
+    rw [secBytes_length]; simp only [List.length_replicate, List.length_cons, List.length_nil]; rw [Varint.width_lt128 (by omega)]
+  have h2 : (secBytes ⟨List.replicate 36 7, List.replicate 200 9⟩).length = 238 := by
+    rw [secBytes_length]; simp only [List.length_replicate]; rw [Varint.width_two (by omega) (by omega)]
+  simp only [exSecs, scan, h1, h2, List.map]
+
 end C01
